@@ -1,6 +1,7 @@
 package refint
 
 import (
+	"fmt"
 	"math"
 	"strconv"
 	"strings"
@@ -1350,8 +1351,52 @@ func installBuiltins(in *Interp, p *Package) {
 		return nil, e
 	})
 	B("gensym", 0, 0, func(in *Interp, env *Env, a []*V) (*V, *Err) {
+		// documented as "a new unique symbol"; the per-runtime counter naming
+		// (genNNNNNNNN) is what the printer shows
 		in.gensym++
-		in.Unsupported = "gensym names are not modelled"
-		return Sym("gensym#" + strconv.Itoa(in.gensym)), nil
+		return Sym(fmt.Sprintf("gen%08d", in.gensym)), nil
+	})
+	mexp := func(once bool) bfn {
+		return func(in *Interp, env *Env, a []*V) (*V, *Err) {
+			form := a[0]
+			if form.T != TList {
+				return nil, in.errf("first argument is not a list")
+			}
+			for depth := 0; ; depth++ {
+				if depth > 1000 {
+					return nil, in.errf("macro expansion depth exceeded")
+				}
+				if form.IsNil() {
+					return form, nil
+				}
+				head := form.C[0]
+				if head.T != TSym {
+					return form, nil
+				}
+				hv, e := in.lookupSym(env, head)
+				if e != nil || hv.T != TFun || !hv.Fn.Macro {
+					return form, nil
+				}
+				pop := in.push(hv.Fn.Name, in.curNode)
+				r, e := in.expandOnce(env, hv.Fn, form.C[1:])
+				pop()
+				if e != nil {
+					return nil, e
+				}
+				r = Quote(unquoteShallow(r))
+				if once || r.T != TList {
+					return r, nil
+				}
+				form = r
+			}
+		}
+	}
+	B("macroexpand", 1, 1, mexp(false))
+	B("macroexpand-1", 1, 1, mexp(true))
+	B("eval", 1, 1, func(in *Interp, env *Env, a []*V) (*V, *Err) {
+		if a[0].T == TQuote {
+			return a[0].C[0], nil
+		}
+		return in.Eval(env, unquoteShallow(a[0]))
 	})
 }
